@@ -92,6 +92,10 @@ type EncSpec struct {
 	// in front of it. They identify nobody to a reader that compares certificates.
 	Hints      *Cert
 	HintsFirst bool
+	// RecipientMore lists further X509Certificate elements in the same X509Data, after the Recipient's (or before it,
+	// with MoreFirst): the EncryptedKey then names several certificates.
+	RecipientMore []*Cert
+	MoreFirst     bool
 }
 
 func (e *EncSpec) String() string {
@@ -279,6 +283,15 @@ func encryptedKeyXML(spec *EncSpec, keyB64 string) string {
 		certEl := ""
 		if recip != "" || spec.RecipRaw != nil {
 			certEl = `<` + d + `X509Certificate>` + recip + `</` + d + `X509Certificate>`
+			more := ""
+			for _, m := range spec.RecipientMore {
+				more += `<` + d + `X509Certificate>` + base64.StdEncoding.EncodeToString(m.DER) + `</` + d + `X509Certificate>`
+			}
+			if spec.MoreFirst {
+				certEl = more + certEl
+			} else {
+				certEl += more
+			}
 		}
 		inData, outside := "", ""
 		if h := spec.Hints; h != nil {
